@@ -21,7 +21,8 @@ RULE = (
     "heterogeneous keys replaced inside the equation only (the network still sees the raw value); gradient w.r.t. an "
     "unbatched parameter == finite difference of the reference. Non-trivial = at least one batched and one unbatched "
     "key, batch >= 2 rows (rows are distinct by construction), and when a heterogeneity map is present at least one "
-    "function is non-constant over the batch."
+    "function is non-constant over the batch. Sub-check large_param_batches: the same oracle with 33..2050 batch rows "
+    "(block-size boundaries of chunked evaluation; seeded lattice values)."
 )
 ASSUMPTIONS = ["tolerance 1e-9*(1+|value|) for values, 1e-5 relative for finite-difference gradients",
                "normalisation + parameter batch is outside the domain; border batch has as many rows as the interior batch"]
@@ -86,6 +87,18 @@ def strat():
     def s(draw):
         spec = draw(single_spec(want=("eq",), maybe=("ic", "boundary", "obs"), param_batch="yes", hetero=True,
                                 obs_params=False, nmax=5, extra=(1, 2), nmin=2))
+        return {"spec": spec, "pick": draw(st.integers(0, 3))}
+
+    return s()
+
+
+def strat_big():
+    from hypothesis import strategies as st
+
+    @st.composite
+    def s(draw):
+        spec = draw(single_spec(want=("eq",), maybe=("ic", "boundary", "obs"), param_batch="yes", hetero=True,
+                                obs_params=False, extra=(1, 2), big="always"))
         return {"spec": spec, "pick": draw(st.integers(0, 3))}
 
     return s()
@@ -166,6 +179,9 @@ def subchecks():
                  counts={"quick": 160, "thorough": 4000}, shards={"quick": 8, "thorough": 16}, clear_every=50,
                  doc="every term of ODE/stationary/non-stationary losses with a per-sample parameter batch (+ optional "
                      "heterogeneity) vs per-sample numpy loop; gradient w.r.t. an unbatched parameter vs finite differences"),
+        SubCheck(name="large_param_batches", mode="given", strategy=strat_big, run_case=run_case,
+                 counts={"quick": 24, "thorough": 400}, shards={"quick": 8, "thorough": 16}, clear_every=6,
+                 doc="the same oracle with per-sample parameter batches of 33..2050 rows"),
         SubCheck(name="heterogeneity_only", mode="given", strategy=strat_hetero, run_case=run_hetero,
                  counts={"quick": 60, "thorough": 1500}, shards={"quick": 3, "thorough": 16}, clear_every=50,
                  doc="heterogeneous parameters without a batch: replaced inside the equation only"),
